@@ -63,7 +63,15 @@ def generate(seed, tier):
             inserts.append((pos2, {'op': 'AddVariable', 'sector': oop['id'], 'name': zn, 'eqn': '2.0*{name:%s}' % nm}))
         elif site == 'addterm':
             inserts.append((pos2, {'op': 'AddVariable', 'sector': oop['id'], 'name': zn, 'eqn': ''}))
-            inserts.append((pos2, {'op': 'AddTerm', 'sector': oop['id'], 'name': zn, 'term': '-{name:%s}' % nm}))
+            # every accepted simple-term shape: name, signed name, product / quotient with a number or another
+            # requested name (requested at the same point of the history)
+            nm2 = nm + 'b'
+            inserts.append((pos, {'op': 'GetVariableName', 'sector': cop['id'], 'var': rng.choice(['F', 'INC', 'LAG_F']),
+                                  'save_as': nm2}))
+            shape = rng.choice(['-{name:A}', '{name:A}', '2*{name:A}', '{name:A}*{name:B}', '{name:A}/{name:B}',
+                                '{name:A}/4', '(-{name:A}/{name:B})'])
+            inserts.append((pos2, {'op': 'AddTerm', 'sector': oop['id'], 'name': zn,
+                                   'term': shape.replace('A}', nm + '}').replace('B}', nm2 + '}')}))
         elif site == 'setrhs':
             inserts.append((pos2, {'op': 'AddVariable', 'sector': oop['id'], 'name': zn, 'eqn': '1.0'}))
             inserts.append((pos2, {'op': 'SetRHS', 'sector': oop['id'], 'name': zn, 'eqn': '{name:%s} - 3.0' % nm}))
